@@ -204,7 +204,7 @@ class ListTree:
                 pattern_parts.append(re.escape(part))
         pattern = '^' + ''.join(pattern_parts) + r'\Z'
         return (re.compile(pattern, re.DOTALL),
-                re.compile(pattern, re.DOTALL | re.IGNORECASE))
+                re.compile(pattern, re.DOTALL | re.IGNORECASE | re.ASCII))
 
     def list_matching(self, ref_name: str, filter_: str) \
             -> Iterable[ListEntry]:
